@@ -1,5 +1,7 @@
 import PptxModel.Model.Proto
 import PptxModel.Model.Pkg
+import PptxModel.Model.PkgOps
+import PptxModel.Model.Opc
 namespace Pptx.Drv.C02
 open Pptx Pptx.Proto Pptx.Pkg
 
@@ -54,7 +56,34 @@ def go (s : St) : List (List Delta) → Nat → String
     | .ok s' => go s' rest (k + 1)
     | .error j => s!"ill-formed-step {k} delta {j}"
 
+def encTgt : Tgt → String
+  | .int t => s!"i{t}"
+  | .ext => "x"
+
+/-- same layout as the harness's `enc_snapshot`; references sorted (they are a multiset) -/
+def encPart (p : PartRec) : String :=
+  let rl := if p.rels.isEmpty then "!" else ",".intercalate (p.rels.map fun e => s!"{encStr e.1}:{encTgt e.2}")
+  let refs := Opc.sortBy Opc.strLt p.refs
+  let rf := if refs.isEmpty then "!" else ",".intercalate (refs.map encStr)
+  s!"{p.id}/{encStr p.name}/{rl}/{rf}"
+
+def decOp : List String → Option PkgOps.Op
+  | ["slide", pres, layout, new, listed] => do
+      pure (.addSlide (← pres.toNat?) (← layout.toNat?) (← new.toNat?) (← listed.toNat?))
+  | ["picture", slide, existing, new, ext] => do
+      let ex ← if existing == "none" then some none else some <$> existing.toNat?
+      pure (.addPicture (← slide.toNat?) ex (← new.toNat?) (← decStr ext))
+  | ["chart", slide, chart, xlsx] => do pure (.addChart (← slide.toNat?) (← chart.toNat?) (← xlsx.toNat?))
+  | _ => none
+
 def handle : List String → Option String
+  | "c02.predict" :: snap :: op => do
+      -- the package graph after the call, predicted from the graph before it
+      let s0 ← (snap.splitOn ";").mapM decPart
+      let op ← decOp op
+      match PkgOps.step s0 op with
+      | some s' => pure (";".intercalate (s'.map encPart))
+      | none => pure "ill-formed-prediction"
   | ["c02.slidenums", n, k, j] => do
       let n ← n.toNat?; let k ← k.toNat?; let j ← j.toNat?
       let s := numbersAfter n k j
